@@ -9,12 +9,14 @@
 //!   reg  <node name> <address> <length> <access mode>      (IntReg / MaskedIntReg / StringReg, immediate values)
 //!   str  <node name> <value>                               (String nodes with an immediate value)
 //!   port <node name>
+//!   int  <node name> <value>                               (Integer nodes with an immediate value)
+//!   enum <node name> <symbolic=value,...>                  (Enumeration nodes and their entries)
 //! Exit code 2 + `error <msg>` when the XML does not parse.
 
 use cameleon_genapi::{
     builder::GenApiBuilder,
     elem_type::{AccessMode, AddressKind, ImmOrPNode},
-    interface::INode,
+    interface::{IEnumeration, INode},
     store::NodeData,
     NodeStore, RegisterBase, ValueStore,
 };
@@ -86,6 +88,24 @@ fn main() {
             }
         }
         NodeData::Port(p) => lines.push(format!("port\t{}", p.name(&store))),
+        NodeData::Integer(i) => {
+            if let Some(id) = i.value_kind().imm() {
+                if let Some(v) = cx.value_store().integer_value(id) {
+                    lines.push(format!("int\t{}\t{}", i.name(&store), v));
+                }
+            }
+        }
+        NodeData::Enumeration(e) => {
+            let ents: Vec<String> = e
+                .entries(&store)
+                .iter()
+                .filter_map(|id| match store.node(*id) {
+                    NodeData::EnumEntry(ent) => Some(format!("{}={}", ent.symbolic(), ent.value())),
+                    _ => None,
+                })
+                .collect();
+            lines.push(format!("enum\t{}\t{}", e.name(&store), ents.join(",")));
+        }
         _ => {}
     });
     lines.sort();
